@@ -108,6 +108,8 @@ def server_part(ctx):
         meta.append((default, hosts, reqs))
     im = ctx.impl(lines)
     ctx.evaluations += len(lines)
+    from props import srvmodel
+    srvmodel.compare(ctx, lines, im, 'server-route-mismatch', 'routing through the config-driven server')
     # the routing model on the flattened pattern lists (a multi-pattern route is one route per pattern, same handler)
     flat = lambda rs: [(p, (kind, ident)) for pats, kind, ident in rs for p in pats]
     mlines, mref = [], []
